@@ -244,6 +244,11 @@ func runC13(cs c13case, rng *h.Rand) (obs c13obs) {
 		cl[i], cl[j] = cl[j], cl[i]
 	}
 	opts := []kmipclient.Option{kmipclient.WithDialerUnsafe(dial), kmipclient.WithKmipVersions(cl...)}
+	if len(client) >= 2 && (cs.cmask+cs.smask+cs.beh)%3 == 0 {
+		// the same set configured through two options, lower versions first (the options accumulate)
+		k := 1 + cs.cmask%(len(client)-1)
+		opts = []kmipclient.Option{kmipclient.WithDialerUnsafe(dial), kmipclient.WithKmipVersions(client[:k]...), kmipclient.WithKmipVersions(client[k:]...)}
+	}
 	if cs.enf != nil {
 		opts = append(opts, kmipclient.EnforceVersion(*cs.enf))
 	}
@@ -285,7 +290,19 @@ func expectC13(cs c13case, replied []kmip.ProtocolVersion, libFailed bool) (ok b
 		return false, v
 	}
 	if libFailed {
-		return false, v
+		// the library's own server refuses a request whose header version it does not support; the
+		// discovery request travels under 1.1 (the first version that has the operation), so this
+		// excuses a failed negotiation only when that server does not support 1.1
+		has11 := false
+		for _, x := range subset(cs.smask) {
+			if x == kmip.V1_1 {
+				has11 = true
+			}
+		}
+		if !has11 || cs.histDefault {
+			return false, v
+		}
+		replied = subset(cs.smask)
 	}
 	found := false
 	for _, x := range replied {
